@@ -508,16 +508,25 @@ def run_symbolic(fn, repo, eager=False, cert_backends=("z3",), max_paths=MAX_PAT
         except RecursionError as e:
             rec["unsupported"] = "recursion: %s" % e
             status = "unknown" if status != "failed" else status
+        except TimeoutError:
+            raise
         except Exception as e:      # noqa: BLE001
             # an exception raised BY THE REPOSITORY CODE (innermost frame in the repository tree) where the obligation
             # expected a normal return is an observation (failed goal); anything else is a checker error
             import traceback
             tb = traceback.extract_tb(e.__traceback__)
-            inner = tb[-1].filename if tb else ""
-            if not inner.startswith(repo.path.rstrip("/") + "/"):
+            root = repo.path.rstrip("/") + "/"
+            repo_frames = [f for f in tb if f.filename.startswith(root)]
+            if not repo_frames:
                 raise
+            inner = tb[-1]
+            in_shim = not inner.filename.startswith(root)
+            # in_shim: the exception surfaced inside the numpy shim / token layer while the repository code was running (e.g. int('XY')
+            # through the shadowed int).  It counts as an observation only if the real code reproduces it (decided by the runner).
             k.goals.append({"label": "the repository code raised where a normal return was expected", "kind": "returns", "status": "failed",
-                            "n": 1, "backend": "execution", "detail": "%s: %s at %s:%s" % (type(e).__name__, e, inner, tb[-1].lineno)})
+                            "n": 1, "backend": "execution", "shim_exception": in_shim,
+                            "detail": "%s: %s at %s:%s (called from %s:%s)" % (type(e).__name__, e, inner.filename, inner.lineno,
+                                                                              repo_frames[-1].filename, repo_frames[-1].lineno)})
         rec["trail"] = list(st.trail)
         rec["goals"] = k.goals
         rec["n_hyps"] = len(st.hyps)
